@@ -332,7 +332,7 @@ func cmdLife() {
 	}
 	if only < 0 && shard == shards-1 {
 		base, _ := quartzGoroutines()
-		for r := 0; r < 8 && base == 0; r++ {
+		for r := 0; r < 24 && base == 0; r++ {
 			pr := runPoolStop(r, []string{"stop", "cancel"}[r%2], 1+r%3)
 			emit(pr)
 			if pr.Leaked > 0 || !pr.WaitOK {
